@@ -92,9 +92,14 @@ def run_batch(seed: int, docs: list, hooks: bool, literal=False):
 
 
 # ------------------------------------------------------------------ classification of a difference
+_CLASS_IMPORT = re.compile(r"from \.+(models)?\.?\w+ import \w+")
+
+
 def _tied(lines):
-    """the subset of `lines` that has a partner differing only in case"""
-    ls = set(lines)
+    """the subset of `lines` that has a partner differing only in case - restricted to imports of generated CLASSES (`from ..models.ab import Ab` /
+    `from .ab import Ab` / bare class names of __all__): the known finding sort_case_tie is about two classes whose names differ only in case.
+    A tie between any other lines (e.g. two spellings of a fixed import line) is NOT that finding: OrderThm.import_pool_keys_distinct forbids it."""
+    ls = {x for x in set(lines) if ("models." in x and _CLASS_IMPORT.fullmatch(x)) or re.fullmatch(r"from \.\w+ import \w+", x) or re.fullmatch(r"\w+", x)}
     return {x for x in ls if any(x != y and x.lower() == y.lower() for y in ls)}
 
 
@@ -426,6 +431,10 @@ def run(run, tier, replay=None):
         doc_list.append((name, variants(d), ["corpus"]))
     for name, d in gdocs.corpus_order() + gdocs.corpus_retry():
         doc_list.append((name, all_orders(d) + [gdocs.permute(d, rng, "media")], ["corpus", "all-permutations"]))
+    # every property kind as an optional property / parameter next to another optional one (hash-seed part; also with literal_enums)
+    kd = gdocs.kinds_optional_document()
+    doc_list.append(("kinds-optional", [kd, gdocs.permute(kd, rng, "reversed"), gdocs.permute(kd, rng, "media")], ["corpus", "kinds"]))
+    doc_list.append(("kinds-optional-literal-enums", [kd, gdocs.permute(kd, rng, "reversed"), gdocs.permute(kd, rng, "media")], ["corpus", "kinds", "literal-enums"]))
     for i in range(n_random):
         d, feats = gdocs.gen_document_c12(rng, pressure=(i % 6 == 5))
         doc_list.append((f"rand{i}", variants(d), feats))
@@ -438,10 +447,10 @@ def run(run, tier, replay=None):
         for di, (name, vs, feats) in enumerate(doc_list):
             for s in seeds:
                 all_perm = "all-permutations" in feats   # exhaustive orders: under the first hash seed only
-                futs[ex.submit(run_batch, s, vs if (s in order_seeds and not (all_perm and s != seeds[0])) else vs[:1], False)] = (di, s, False)
+                futs[ex.submit(run_batch, s, vs if (s in order_seeds and not (all_perm and s != seeds[0])) else vs[:1], False, "literal-enums" in feats)] = (di, s, False)
             if have_ruff:
                 for s in hook_seeds:
-                    futs[ex.submit(run_batch, s, vs[:3], True)] = (di, s, True)   # original, reversed, one random order
+                    futs[ex.submit(run_batch, s, vs[:3], True, "literal-enums" in feats)] = (di, s, True)   # original, reversed, one random order
         for f in cf.as_completed(futs):
             results[futs[f]] = f.result()
     run.extra["generation_wall_s"] = round(time.time() - t0, 1)
